@@ -24,7 +24,9 @@ func runC41(c *mon.Ctx) {
 		"bad_server_salt) or an announced future salt with valid_until > t+300s, or - only when no announced salt is valid past the lookahead - a future salt that " +
 		"was valid past the lookahead when announced. Random programs of travel (incl. exact validity/lookahead boundaries), future_salts, new_session_created, " +
 		"Ping, and Invoke with bad_server_salt before ack / after ack / twice / duplicated: transmissions of the request counted per msg_id (must be 2 after one " +
-		"bad_server_salt, carrying the new salt; no third one after a second). (3) stress: concurrent Invokes with bad_server_salt on random requests under -race. " +
+		"bad_server_salt, carrying the new salt; no third one after a second). (3) traffic: with an adopted future salt, bad_server_salt is delivered inside a burst of " +
+		"0..39+0..39 unrelated server messages handled on their own goroutines; the retransmission must still carry the new salt. " +
+		"(4) stress: concurrent Invokes with bad_server_salt on random requests under -race. " +
 		"distinct non-trivial = (frame kind, salt class) pairs, invoke plans x salt class, unit observation classes, porcupine history shapes")
 	c.Assume("refmodel MTProto 2.0 cipher and the generated mt TL encoders are trusted; the harness model of 'told'/'announced' salts follows the order in which " +
 		"the harness injected server messages, each injection synchronised by an observable effect (sentinel in the same container, OnSession, retransmitted frame)")
